@@ -25,8 +25,18 @@ from flodym.stocks import InflowDrivenDSM, SimpleFlowDrivenStock, StockDrivenDSM
 
 import impl_array  # noqa: E402
 
-CLS = {"fds": SimpleFlowDrivenStock, "idsm": InflowDrivenDSM, "sdsm": StockDrivenDSM}
-CLSNAME = {SimpleFlowDrivenStock: "fds", InflowDrivenDSM: "idsm", StockDrivenDSM: "sdsm"}
+class UserStockDrivenDSM(StockDrivenDSM):
+    """a user's own stock class: inherits every field, adds none"""
+
+
+class UserInflowDrivenDSM(InflowDrivenDSM):
+    pass
+
+
+CLS = {"fds": SimpleFlowDrivenStock, "idsm": InflowDrivenDSM, "sdsm": StockDrivenDSM,
+       "sdsmsub": UserStockDrivenDSM, "idsmsub": UserInflowDrivenDSM}
+CLSNAME = {SimpleFlowDrivenStock: "fds", InflowDrivenDSM: "idsm", StockDrivenDSM: "sdsm",
+           UserStockDrivenDSM: "sdsm", UserInflowDrivenDSM: "idsm"}
 NAMING = {"arrow": process_names_with_arrow, "nospaces": process_names_no_spaces, "ids": process_ids}
 
 
@@ -141,6 +151,20 @@ class Impl(impl_array.Impl):
             flows = make_empty_flows(processes=processes, flow_definitions=definition.flows, dims=dims, naming=NAMING[b["naming"]])
             stocks = make_empty_stocks(processes=processes, stock_definitions=definition.stocks, dims=dims)
             return MFASystem(dims=dims, parameters=params, processes=processes, flows=flows, stocks=stocks)
+        if route == "reader":
+            # a user-written data reader: it returns the dimensions and plain, unnamed parameters
+            from flodym.data_reader import DataReader
+
+            prm_values = {n: (ls, vals) for n, ls, vals in b["params"]}
+
+            class UserReader(DataReader):
+                def read_dimension(self, definition):
+                    return [d for d in dim_objs if d.name == definition.name][0]
+
+                def read_parameter_values(self, parameter_name, dims):
+                    ls, vals = prm_values[parameter_name]
+                    return flodym.Parameter(dims=dims, values=np.array([impl_array.num(v) for v in vals], dtype=float).reshape(dims.shape))
+            return MFASystem.from_data_reader(definition, UserReader())
         # ---- through files
         tmp = self.tmpdir()
         ext = "csv" if route == "csv" else "xlsx"
